@@ -366,6 +366,49 @@ def random_word(rng, length, setup, clean_only):
     return ops
 
 
+def is_clean(case):
+    """Does the history avoid AddData of a present dataset and RemoveData of an absent / non-last one?
+    A naive bookkeeping of dc.data through do / undo / redo as coded — only used to stratify the
+    generators and to keep the shrinker on one side; the verdicts (and `p`) come from Lean."""
+    _n, setup, ops = case
+    cur = [s[1] for s in setup if s[0] == 'app']
+    done, undone = [], []
+
+    def do(c):
+        nonlocal cur
+        ok = True
+        if c[0] == 'add':
+            ok = c[1] not in cur
+            if ok:
+                cur = cur + [c[1]]
+        elif c[0] == 'rem':
+            ok = bool(cur) and cur[-1] == c[1]
+            if c[1] in cur:
+                cur = [d for d in cur if d != c[1]]
+        return ok
+
+    for op in ops:
+        if op[0] == 'do':
+            if not do(op[1]):
+                return False
+            done.append(op[1])
+            done[:] = done[-command_module.MAX_UNDO:]
+            undone = []
+        elif op[0] == 'undo' and done:
+            c = done.pop()
+            undone.append(c)
+            if c[0] == 'add' and c[1] in cur:
+                cur = [d for d in cur if d != c[1]]
+            elif c[0] == 'rem' and c[1] not in cur:
+                cur = cur + [c[1]]
+        elif op[0] == 'redo' and undone:
+            c = undone.pop()
+            if not do(c):
+                return False
+            done.append(c)
+    return True
+
+
 class Word(Family):
     """exhaustive words of fixed length over small alphabets."""
     name = "word"
@@ -407,6 +450,15 @@ class Word(Family):
         return {"construct": res.get("blame", "?")}
 
     def shrink(self, case):
+        # a candidate must stay on the same side of the known-finding constructs as the case itself:
+        # the core accepts any smaller case that fails in the same way (property / model), so a
+        # clean failing history must not be allowed to drift into one of the listed constructs
+        c0 = is_clean(case)
+        for cand in self._shrink(case):
+            if is_clean(cand) == c0:
+                yield cand
+
+    def _shrink(self, case):
         n, setup, ops = case
         for k in range(len(ops) - 1, 0, -1):
             yield [n, setup, ops[:k]]
